@@ -1,5 +1,6 @@
 import Std.Data.HashMap
 import Driver.Common
+import Driver.OpsAnalysis
 import Driver.OpsBatch
 import Driver.OpsBits
 import Driver.OpsCli
@@ -17,7 +18,7 @@ open Panqec
     (`none` = not my op); the first that answers wins. -/
 
 def handlers : List (List String → Option String) :=
-  [Drv.handleBatch, Drv.handleBits, Drv.handleCli, Drv.handleCode, Drv.handleDeform, Drv.handleGui, Drv.handleMask, Drv.handleNoise, Drv.handleSim, Drv.handleSweep]
+  [Drv.handleAnalysis, Drv.handleBatch, Drv.handleBits, Drv.handleCli, Drv.handleCode, Drv.handleDeform, Drv.handleGui, Drv.handleMask, Drv.handleNoise, Drv.handleSim, Drv.handleSweep]
 
 def handleToks (toks : List String) : String :=
   match handlers.findSome? (fun h => h toks) with
